@@ -357,7 +357,39 @@ func runC03(c *fw.Ctx) {
 			}
 			keys := append([]string(nil), c03Keys[:n]...)
 			sort.Strings(keys)
-			sampleBatch(c, eng, keys)
+			sampleBatch(c, eng, keys, nil)
+			// ... and of tables some of whose rows have lost all their cells since (by every kind of delete): such a
+			// row is not a stored row any more, wherever it stood (first, inner, last key)
+			if n >= 2 {
+				for mask := 1; mask < 1<<n; mask++ {
+					if n > 3 && mask != 1 && mask != 1<<(n-1) && mask != 1<<(n-1)|1 && mask != (1<<n)-1 && mask != 2 {
+						continue // larger tables: first, last, both, all, second
+					}
+					for how := 0; how < 4; how++ {
+						var emptied []bt.Op
+						var left []string
+						for i, k := range keys {
+							if mask&(1<<i) == 0 {
+								left = append(left, k)
+								continue
+							}
+							var muts []bt.Mut
+							switch how {
+							case 0:
+								muts = []bt.Mut{mdelcol("f", "c0000"), mdelcol("f", "c0001")}
+							case 1:
+								muts = []bt.Mut{mdelfam("f")}
+							case 2:
+								muts = []bt.Mut{mdelcolr("f", "c0000", 0, 2000), mdelcolr("f", "c0001", 1000, 0)}
+							case 3:
+								muts = []bt.Mut{{Kind: "delrow"}}
+							}
+							emptied = append(emptied, bt.Op{Kind: "MutateRow", Table: tblT, Key: []byte(k), Muts: muts})
+						}
+						sampleBatch(c, eng, keys, emptied, left...)
+					}
+				}
+			}
 		}
 		// pass 6: a table longer than the batching constants of the engines and of the service (iterators and
 		// the GC pass work in batches of ~100 rows, a response message holds ~1024 chunks): full reads, limits
@@ -389,8 +421,13 @@ func runC03(c *fw.Ctx) {
 	c.Bound("limits", limits)
 }
 
-func sampleBatch(c *fw.Ctx, engine string, keys []string) {
-	setup := populate(keys, 2)
+// sampleBatch: a table of the given keys (two cells each), then the given further requests; stored (if given) are
+// the keys that still have cells afterwards.
+func sampleBatch(c *fw.Ctx, engine string, keys []string, more []bt.Op, stored ...string) {
+	setup := append(populate(keys, 2), more...)
+	if more != nil {
+		keys = stored
+	}
 	w := newBTWorld(c, engine)
 	defer w.Close()
 	for i := range setup {
